@@ -1,4 +1,5 @@
 import SqlObjVerif.Lemmas.DdlXTypeB
+import SqlObjVerif.Lemmas.DdlXTypeB0
 import SqlObjVerif.Lemmas.DdlXTypeC
 import SqlObjVerif.Lemmas.DdlXEnum
 import SqlObjVerif.Lemmas.DdlXFk
@@ -192,7 +193,10 @@ theorem col_createSQL (n : Nat) (st : Style) (tb : Str) (c0 : Val) (col : Col) (
   | int k len u z =>
     exact plain_createSQL n st tb c0 _ d c rfl (int_type (n + 1) TX st tb _ k len u z d c name dbn nn uq alt ds _)
   | str un len v =>
-    exact plain_createSQL n st tb c0 _ d c rfl (str_type n TX st tb c0 un len v d c name dbn nn uq alt ds _)
+    by_cases hl : len = 0
+    · subst hl
+      exact plain_createSQL n st tb c0 _ d c rfl (str_type_nolen n TX st tb c0 un v d c name dbn nn uq alt ds _)
+    · exact plain_createSQL n st tb c0 _ d c rfl (str_type_len n TX st tb c0 un len v d c name dbn nn uq alt ds _ hl)
   | blob len v =>
     exact plain_createSQL n st tb c0 _ d c rfl (blob_type n TX st tb c0 false len v d c name dbn nn uq alt ds _)
   | pickle len v =>
